@@ -720,6 +720,10 @@ def generic_requests(case, ops=('all', 'encode', 'sizes', 'gen')):
         out.append(('%s encode %s' % (spec, evs_wire(oh, case['events'])), sh_encode(lambda: enc.encode(evs))))
     if 'sizes' in ops:
         out.append(('%s sizes' % spec, '%d %d %s' % (enc.input_size, enc.num_classes, ex(lambda: enc.default_event_label, str))))
+        if kind[0] == 'ohi':
+            # input_depth of the index encoder = length of the one-hot vector the model's one-hot encoder builds for
+            # the same encoding (asked from the model as the input_size of the 'oh' variant)
+            out.append(('g %s sizes' % spec_wire(oh, ['oh']), '%d %d %s' % (enc.input_depth, enc.num_classes, ex(lambda: enc.default_event_label, str))))
     if 'gen' in ops and case.get('labels') is not None:
         labels = case['labels']
         primer = evs[:case.get('primer', 0)]
